@@ -24,6 +24,8 @@ DrawChecks(e) ==
 ConcChecks(e) ==
   LET o == e.obs IN
   << <<"no panic", ~Has(o, "panic")>>,
+     <<"independent values give the same result whatever was processed before them (forward and reverse sequential passes agree)",
+        Has(o, "orderMismatches") /\ o.orderMismatches = 0>>,
      <<"concurrent results equal sequential results", Has(o, "mismatches") /\ o.mismatches = 0 /\ o.compared = e.expect>>,
      <<"no data race reported", Has(o, "races") /\ o.races = 0>> >>
 Checks(e) == CASE e.k = "draw" -> DrawChecks(e) [] e.k = "conc" -> ConcChecks(e)
